@@ -299,8 +299,13 @@ def run(facts, rep, tier):
                         in_then = contains_node(a["then"], n)
                         if in_then and rname and ("%s.is_some()" % rname) in cs:
                             guarded, why = True, "guarded by %s.is_some()" % rname
-                        if in_then and a["cond"].get("k") == "letx" and psrc(a["cond"]["pat"]).startswith("Some(") and "metadata" in cs:
-                            guarded, why = True, "inside `if let Some(metadata)`: the value is read from the very metadata the constructor saw"
+                        if in_then and a["cond"].get("k") == "letx" and psrc(a["cond"]["pat"]).startswith("Some("):
+                            from lib import Canon
+                            cnd = Canon(c, h, 4)
+                            x_ = cnd.r(a["cond"]["init"])
+                            # the value assigned is read out of the very Option that was just matched as Some
+                            if cnd.r(n["r"]).startswith(x_ + "~Some"):
+                                guarded, why = True, "inside `if let Some(m) = <metadata>` and the value is read from that m: the very metadata the constructor saw"
                 if rhs.get("k") == "call" and rhs.get("fn", "").endswith("::Some"):
                     guarded, why = True, "assigns Some(..)"
                 key = "%s#%d" % (h["fn"], sum(1 for o in rep.obligations if o["key"].startswith("C06.D3/no-none-overwrite:%s#" % h["fn"])))
